@@ -20,8 +20,8 @@ import (
 // must fail and which must complete.
 
 var c27ServerScen = []string{"trusted", "untrusted", "expired", "notyet", "wrongname", "wrongkey", "badsig", "nointer", "ip_ok", "ip_mismatch", "expired_root", "root_still_valid",
-	"pathlen", "under_leaf", "resume_ok", "resume_expired"}
-var c27ClientScen = []string{"none", "trusted", "untrusted", "expired", "wrongkey", "badsig", "pathlen", "under_leaf"}
+	"pathlen", "under_leaf", "resume_ok", "resume_expired", "cn_without_dns_san", "odd_eku"}
+var c27ClientScen = []string{"none", "trusted", "untrusted", "expired", "wrongkey", "badsig", "pathlen", "under_leaf", "odd_eku"}
 
 type c27Scenario struct {
 	Seed       uint64 `json:"seed"`
@@ -119,9 +119,9 @@ func genC27(seed uint64, tier string) any {
 		break
 	}
 	sc.Key = keyForSuite(r, suiteByID[sc.Suite], sc.Version)
-	sc.ServerScen = c27ServerScen[r.Pick([]int{9, 1, 1, 1, 1, 2, 2, 1, 1, 1, 1, 1, 1, 1, 1, 2})]
+	sc.ServerScen = c27ServerScen[r.Pick([]int{9, 1, 1, 1, 1, 2, 2, 1, 1, 1, 1, 1, 1, 1, 1, 2, 1, 1})]
 	sc.AuthMode = r.Intn(5)
-	sc.ClientScen = c27ClientScen[r.Pick([]int{2, 3, 1, 1, 2, 2, 1, 1})]
+	sc.ClientScen = c27ClientScen[r.Pick([]int{2, 3, 1, 1, 2, 2, 1, 1, 1})]
 	sc.ClientKey = []string{"rsa", "p256", "p384", "ed"}[r.Pick([]int{3, 3, 1, 2})]
 	if sc.ClientKey == "ed" && sc.Version < vTLS12 {
 		sc.ClientKey = "p256"
@@ -171,7 +171,7 @@ func c27Table(sc *c27Scenario) c27Expect {
 		if sc.ClientScen == "wrongkey" || sc.ClientScen == "badsig" {
 			e.ServerMustFail = true
 			e.Reason = "client does not prove possession (" + sc.ClientScen + ")"
-		} else if (sc.ClientScen == "untrusted" || sc.ClientScen == "expired" || sc.ClientScen == "pathlen" || sc.ClientScen == "under_leaf") &&
+		} else if (sc.ClientScen == "untrusted" || sc.ClientScen == "expired" || sc.ClientScen == "pathlen" || sc.ClientScen == "under_leaf" || sc.ClientScen == "odd_eku") &&
 			(sc.AuthMode == int(tls.VerifyClientCertIfGiven) || sc.AuthMode == int(tls.RequireAndVerifyClientCert)) {
 			e.ServerMustFail = true
 			e.Reason = "client chain does not verify (" + sc.ClientScen + ")"
@@ -235,6 +235,13 @@ func execC27(t *testing.T, scAny any, keepLog bool) *Outcome {
 		case "pathlen":
 			// well-signed chain leaf <- CA <- intermediate with pathLenConstraint 0 <- trusted root
 			scfg.Certificates = []tls.Certificate{{Certificate: [][]byte{p.ServerDeep[kind].DER, p.DeepCA.DER, p.Inter.DER}, PrivateKey: kit.TLSKey(keyOfKind[kind])}}
+		case "cn_without_dns_san":
+			// the name is in the subject's common name only; the subjectAltName extension is present (an IP address) and
+			// therefore authoritative (RFC 6125 6.4.4)
+			scfg.Certificates = []tls.Certificate{tlsCert(p.ServerCNOnly[kind], true, keyOfKind[kind])}
+		case "odd_eku":
+			// extended key usage present and without serverAuth / anyExtendedKeyUsage (one private OID)
+			scfg.Certificates = []tls.Certificate{tlsCert(p.ServerOddEKU[kind], true, keyOfKind[kind])}
 		case "under_leaf":
 			// the "issuer" is an end-entity certificate (no CA flag)
 			scfg.Certificates = []tls.Certificate{{Certificate: [][]byte{p.ServerUnderLeaf[kind].DER, p.Server["p256"].DER, p.Inter.DER}, PrivateKey: kit.TLSKey(keyOfKind[kind])}}
@@ -279,6 +286,9 @@ func execC27(t *testing.T, scAny any, keepLog bool) *Outcome {
 			o.count("fault.clock_skew_server", 1)
 		case "pathlen":
 			ccert = &tls.Certificate{Certificate: [][]byte{p.ClientDeep[ck].DER, p.DeepCA.DER, p.Inter.DER}, PrivateKey: kit.TLSKey(clientKeyOfKind[ck])}
+		case "odd_eku":
+			c := tlsCert(p.ClientOddEKU[ck], true, clientKeyOfKind[ck])
+			ccert = &c
 		case "under_leaf":
 			ccert = &tls.Certificate{Certificate: [][]byte{p.ClientUnderLeaf[ck].DER, p.Server["p256"].DER, p.Inter.DER}, PrivateKey: kit.TLSKey(clientKeyOfKind[ck])}
 		case "wrongkey":
